@@ -295,7 +295,9 @@ impl Xot {
     /// assert!(xot.is_removed(text));
     /// ```
     pub fn is_removed(&self, node: Node) -> bool {
-        self.arena()[node.get()].is_removed()
+        // compare stamps: the slot of a removed node may have been reused by
+        // a newer node, which must not make the old handle look live again
+        node.get().is_removed(self.arena())
     }
 
     /// Get parent node.
